@@ -10,6 +10,11 @@
 #include <asmjit/arm/a64instdb_p.h>
 #include "vh.h"
 
+// fixes/C13-8 adds a name-sorted id table to the AArch64 database; weak so that the harness links against both trees
+ASMJIT_BEGIN_SUB_NAMESPACE(a64)
+namespace InstDB { extern const uint16_t _inst_name_sorted_id_table[] __attribute__((weak)); }
+ASMJIT_END_SUB_NAMESPACE
+
 using namespace asmjit;
 
 static const char* ename(Error e) { return DebugUtils::error_as_string(e); }
@@ -74,6 +79,14 @@ static int dump_names() {
     using namespace a64;
     dump_name_set("a64", Arch::kAArch64, Inst::_kIdCount, InstDB::_inst_name_index, InstDB::_inst_name_index_table,
                   InstDB::_inst_name_string_table, strtab_extent(InstDB::_inst_name_index_table, Inst::_kIdCount, InstDB::_inst_name_string_table));
+    const uint16_t* sorted = InstDB::_inst_name_sorted_id_table;
+    if (sorted) {
+      unsigned n = 0;
+      for (int i = 0; i < 26; i++) n = std::max<unsigned>(n, InstDB::_inst_name_index.data[i].end);
+      printf("sortedids");
+      for (unsigned i = 0; i < n; i++) printf(" %u", unsigned(sorted[i]));
+      printf("\n");
+    }
   }
   return 0;
 }
@@ -85,6 +98,7 @@ static int dump_x86sig() {
   printf("const kRep %x\nconst kRepIgnored %x\nconst kLock %x\nconst kXAcquire %x\nconst kXRelease %x\nconst kEvex %x\n",
          unsigned(InstDB::InstFlags::kRep), unsigned(InstDB::InstFlags::kRepIgnored), unsigned(InstDB::InstFlags::kLock),
          unsigned(InstDB::InstFlags::kXAcquire), unsigned(InstDB::InstFlags::kXRelease), unsigned(InstDB::InstFlags::kEvex));
+  printf("const kVex %x\nconst kVsib %x\nconst optEvex %x\n", unsigned(InstDB::InstFlags::kVex), unsigned(InstDB::InstFlags::kVsib), unsigned(InstOptions::kX86_Evex));
   printf("const avxK %x\nconst avxZ %x\nconst avxER %x\nconst avxSAE %x\nconst avxB16 %x\nconst avxB32 %x\nconst avxB64 %x\n",
          unsigned(InstDB::Avx512Flags::kK), unsigned(InstDB::Avx512Flags::kZ), unsigned(InstDB::Avx512Flags::kER), unsigned(InstDB::Avx512Flags::kSAE),
          unsigned(InstDB::Avx512Flags::kB16), unsigned(InstDB::Avx512Flags::kB32), unsigned(InstDB::Avx512Flags::kB64));
@@ -104,6 +118,7 @@ static int dump_x86sig() {
   for (uint32_t id = 0; id < Inst::_kIdCount; id++) {
     const InstDB::CommonInfo& ci = InstDB::_inst_info_table[id].common_info();
     printf("inst %u %x %x %u %u\n", id, unsigned(ci._flags), unsigned(ci._avx512_flags), unsigned(ci._inst_signature_index), unsigned(ci._inst_signature_count));
+    if (InstDB::_inst_info_table[id]._encoding == InstDB::kEncodingVexRvm_Lx_2xK) printf("pairk %u\n", id);
   }
   // signature rows reachable from any instruction
   uint32_t nsig = 0, nop = 0;
@@ -237,7 +252,9 @@ static std::string emit_once(const ParsedInst& pi, bool validate_on) {
   CodeHolder code;
   Environment env(pi.arch);
   SilentHandler eh;
-  if (code.init(env, 0) != Error::kOk) return "InitFailed:";
+  // no base address: whether an absolute 64-bit address is reachable is then decided at relocation time, which is also
+  // all that validate() can know
+  if (code.init(env) != Error::kOk) return "InitFailed:";
   code.set_error_handler(&eh);
   x86::Assembler a(&code);
   if (validate_on) a.add_diagnostic_options(DiagnosticOptions::kValidateAssembler);
